@@ -1,16 +1,23 @@
 import IoraModel.Lemmas.WsFrame
 import IoraModel.Lemmas.WsStream
 import IoraModel.Lemmas.WsClient
+import IoraModel.Lemmas.WsEndpoint
+import IoraModel.Lemmas.WsUpgrade
 import IoraModel.Lemmas.Utf8
+import IoraModel.Model.WsSkel
+import IoraModel.Lemmas.WsConc
 import IoraModel.Common.Framing
 /-!
 # C18 — WebSocket framing round-trips and reassembles under any segmentation
 
-Property theorems only (helper lemmas live in `Lemmas/WsFrame.lean`).  The model is
-`Model/WsFrame.lean` + `Model/WsServer.lean`; constants come from the regenerated `Gen/Ws.lean`.
+Property theorems only (helper lemmas live in `Lemmas/Ws*.lean`).  The model is `Model/WsFrame.lean` (codec, UTF-8),
+`Model/WsServer.lean`, `Model/WsClient.lean` (sessions incl. re-entrant sends from callbacks and the upgrade boundary) and
+`Model/WsSkel.lean` (lock discipline over the extracted skeleton); constants and skeletons come from the regenerated `Gen/Ws.lean`.
 -/
 namespace Iora.C18
 open Iora Iora.Ws Iora.Framing
+
+/-! ## W1 / W2 — the codec -/
 
 /-- **W1 (round-trip).** Every well-formed frame — any opcode, FIN, masked or not, any mask key, payload of any
 length `< 2^64` (7-, 16- and 64-bit encodings) — parses back to an equal frame consuming exactly its own bytes,
@@ -29,17 +36,69 @@ example : ∃ pl : Bytes, pl.length = 70000 := ⟨List.replicate 70000 7, List.l
 example : (Frame.mk true 9 false zeroKey [1, 2, 3]).WF :=
   ⟨by decide, by decide, by simp, by simp, by simp [Gen.Ws.maxControlPayload]⟩
 
+/-- **W1, the hypothesis is necessary.** `serialize` is total but `parse` (rightly, RFC 6455 §5.5) rejects a control frame
+with more than 125 payload bytes: a 126-byte ping serialises to `89 7e 00 7e …` and parses as a protocol error. So the
+round trip holds for well-formed frames only; `W1_endpoint_frames_wellformed` shows the endpoints never emit any other. -/
+theorem W1_control_bound_necessary (pl : Bytes) (hl : pl.length = 126) :
+    parse (2 ^ 64) (serialize (mkFrame 9 true pl)) = .protocolError := by
+  simp [serialize, mkFrame, hl, Gen.Ws.serMax7, Gen.Ws.serMax16, be16, parse, isControl, Gen.Ws.controlOpcodes,
+    Gen.Ws.maxControlPayload]
+
+/-- **W1 (endpoints).** Every frame a server session hands to the transport — application sends incl. those made from
+inside callbacks, pongs, close echoes, failure closes — is the serialisation of a WELL-FORMED frame (so, by W1, it parses
+back to itself), for every history in which the application's text/binary payloads are shorter than 2^64 bytes.
+`sendPing` drops payloads above 125 bytes and `makeClose` cuts the reason to 123 (repair FC18c). -/
+theorem W1_endpoint_frames_wellformed (max : Nat) (cb : Cbs) (ops : List AppOp) (hcb : cb.Small) (hops : ∀ op ∈ ops, op.Small) :
+    ∀ w, Ev.sent w ∈ (run max cb {} ops).2 → ∃ f : Frame, f.WF ∧ w = serialize f :=
+  run_sentWF max cb ops {} hcb hops
+
+/-- the client analogue (frames recorded unmasked: opcode, FIN, payload) -/
+theorem W1_client_frames_wellformed (cfg : CCfg) (ops : List COp) (hcb : cfg.cb.Small) (hops : ∀ op ∈ ops, op.Small) (s : CSess) :
+    ∀ op fin pl, CEv.sent op fin pl ∈ (cRun cfg s ops).2 → ∀ key : Bytes, key.length = 4 →
+      (Frame.mk fin op true key pl).WF :=
+  cRun_sentWF cfg ops s hcb hops
+
+/-- non-vacuity: a script that sends a ping and a close from inside `onText`, and a text send, are small -/
+example : (Cbs.mk [.ping [1, 2], .close 1000 []] [] [] []).Small ∧ (AppOp.sendText [104, 105]).Small := by
+  refine ⟨⟨?_, ?_, ?_, ?_⟩, ?_⟩
+  · intro a ha
+    simp only [List.mem_cons, List.mem_nil_iff, or_false] at ha
+    rcases ha with rfl | rfl <;> simp [Send.Small]
+  · intro a ha; cases ha
+  · intro a ha; cases ha
+  · intro a ha; cases ha
+  · simp [AppOp.Small, Send.Small]
+
 /-- **W2 (prefix safety).** Every strict prefix of a serialised frame is reported as "incomplete"
 (never as a frame, never as an error). -/
 theorem W2_prefix_incomplete (max : Nat) (f : Frame) (h : f.WF) (hmax : f.payload.length ≤ max)
     (p x : Bytes) (hx : x ≠ []) (hp : p ++ x = serialize f) : parse max p = .incomplete :=
   prefix_incomplete max f h hmax p x hx hp
 
+/-- non-vacuity: the 6-byte masked frame `81 82 k k k k` ++ 2 bytes cut after its header -/
+example : ([0x81, 0x82, 1, 2] : Bytes) ++ [3, 4, 0x69, 0x6b] = serialize (Frame.mk true 1 true [1, 2, 3, 4] [0x68, 0x69]) ∧
+    ([3, 4, 0x69, 0x6b] : Bytes) ≠ [] := by decide
+
 /-- **Extension stability** (the hypothesis of the generic segmentation theorem, DESIGN §6.6): an answer other than
 "incomplete" never changes when more bytes arrive, for buffers that do not start with an RSV bit. -/
 theorem W3_stable (max : Nat) (d x : Bytes) (hr : NoRsv d) (h : parse max d ≠ .incomplete) :
     parse max (d ++ x) = parse max d :=
   parse_stable max d x hr h
+
+/-- non-vacuity: a complete 2-byte pong is RSV-free and not "incomplete"; so is a header declaring too much -/
+example : NoRsv [0x8a, 0x00] ∧ parse 10 [0x8a, 0x00] ≠ .incomplete := ⟨by simp [NoRsv], by decide⟩
+example : NoRsv [0x82, 0x7e, 0x01, 0x00] ∧ parse 10 [0x82, 0x7e, 0x01, 0x00] = .tooLarge := ⟨by simp [NoRsv], by decide⟩
+
+/-- **RSV observation (no finding).** A first byte with an RSV bit set is answered with an EMPTY frame of that byte's
+opcode and FIN that "consumes" the whole buffer (`91 05 …` is a text frame with no payload), which the session then
+handles as a real frame: extensions are not negotiated, so a conforming peer never sends one, and the answer is not
+extension-stable — which is why the segmentation theorems are stated for streams of valid (RSV-free) frames. -/
+theorem W6_rsv_observation (cb : Cbs) :
+    parse 100 [0x91, 0x05, 1, 2, 3] = .frame (mkFrame 1 true []) 5 ∧
+    (handleFrame 100 cb {} (mkFrame 1 true [])).2 = (fire {} (.text []) cb.onText).2 ∧
+    parse 100 [0x91, 0x05] ≠ parse 100 ([0x91, 0x05] ++ [1, 2, 3]) := by
+  refine ⟨by decide, ?_, by decide⟩
+  simp [handleFrame, handleDataFrame, accumulate, deliver, mkFrame, isValidUtf8]
 
 /-- **W6a (bounded allocation, no over-read).** For ARBITRARY bytes: a returned frame lies inside the buffer; the only
 allocation (`payload.resize`) is at most the bytes available and at most the caller's limit. -/
@@ -48,11 +107,18 @@ theorem W6_frame_bounds (max : Nat) (d : Bytes) (f : Frame) (n : Nat) (h : parse
   let ⟨_, h2, h3, h4⟩ := parse_frame_bounds max d f n h
   ⟨h2, h3, h4⟩
 
-/-- **W6b (bounded buffering).** A buffer the parser calls "incomplete" is shorter than `14 + max`: an endpoint that
-waits only on "incomplete" retains at most `max + 13` bytes, whatever the peer sends. -/
-theorem W6_incomplete_short (max : Nat) (d : Bytes) (hr : NoRsv d) (h : parse max d = .incomplete) :
+example : parse 10 [0x82, 0x02, 7, 8, 9] = .frame (mkFrame 2 true [7, 8]) 4 := by decide
+
+/-- **W6b (bounded buffering).** A buffer the parser calls "incomplete" is shorter than `14 + max` — for ARBITRARY bytes
+(no RSV hypothesis: a buffer of two or more bytes with an RSV bit is never "incomplete"). An endpoint that waits only on
+"incomplete" retains at most `max + 13` bytes, whatever the peer sends. -/
+theorem W6_incomplete_short (max : Nat) (d : Bytes) (h : parse max d = .incomplete) :
     d.length < 14 + max :=
-  parse_incomplete_short max d hr h
+  parse_incomplete_short' max d h
+
+example : parse 10 [0x82, 0x7e, 0x00] = .incomplete := by decide
+
+/-! ## W3 — segmentation -/
 
 /-- **W3 (frames).** However a stream of valid frames is cut into network reads (including empty reads and one byte at
 a time), greedy framing yields exactly the frames that were serialised — in order, each once, nothing left over. -/
@@ -61,29 +127,39 @@ theorem W3_frames (max : Nat) (fs : List Frame) (hv : ValidFrames max fs) (ss : 
     feed (wsStable max) (.alive []) ss = (fs.map toP, .alive []) :=
   feed_stream max fs hv ss hs
 
-/-- **W3 (server events).** For any stream of valid frames in which the peer's CLOSE (if any) is its last frame, and
-any two ways `ss`, `ts` of cutting the byte stream into reads, a fresh server session produces the same sequence of
-externally visible events (messages delivered, bytes sent, close/error callbacks). In fact the events are a function
-of the frame list alone. -/
-theorem W3_server_segmentation_independent (max : Nat) (fs : List Frame) (hv : ValidFrames max fs)
-    (hcl : CloseOnlyLast fs) (ss ts : List Bytes) (hs : ss.flatten = stream fs) (ht : ts.flatten = stream fs) :
-    (run max {} (ss.map AppOp.data)).2 = (run max {} (ts.map AppOp.data)).2 := by
-  rw [run_data_eq max ss {} fs hv hcl rfl (by simpa using hs) (by simp [parse]),
-      run_data_eq max ts {} fs hv hcl rfl (by simpa using ht) (by simp [parse])]
+/-- **W3 (server events, general form).** For any stream of valid frames in which every frame reaches a session that
+still exists (`LiveUntilLast`: only the last frame may end the session), whatever the application sends from inside its
+callbacks, and any way `ss` of cutting the byte stream into reads, a fresh server session produces exactly the events of
+the per-frame handler folded over the frame list: the events are a function of the frames alone. -/
+theorem W3_server_events_general (max : Nat) (cb : Cbs) (fs : List Frame) (hv : ValidFrames max fs)
+    (hl : LiveUntilLast max cb {} fs) (ss : List Bytes) (hs : ss.flatten = stream fs) :
+    (run max cb {} (ss.map AppOp.data)).2 = (interp max cb {} (fs.map toP)).2 :=
+  run_data_eq max cb ss {} fs hv hl rfl (by simpa using hs) (by simp [parse])
 
-theorem W3_server_events_of_frames (max : Nat) (fs : List Frame) (hv : ValidFrames max fs)
-    (hcl : CloseOnlyLast fs) (ss : List Bytes) (hs : ss.flatten = stream fs) :
-    (run max {} (ss.map AppOp.data)).2 = (interp max {} (fs.map toP)).2 :=
-  run_data_eq max ss {} fs hv hcl rfl (by simpa using hs) (by simp [parse])
+/-- **W3 (server events).** The syntactic sufficient condition: the peer's CLOSE (if any) is its last frame and every
+message — complete or not — stays within the limit (`fitsFrom`; the server now fails a session whose message exceeds it).
+Any two segmentations then give the same events. -/
+theorem W3_server_segmentation_independent (max : Nat) (cb : Cbs) (fs : List Frame) (hv : ValidFrames max fs)
+    (hcl : CloseOnlyLast fs) (hfit : fitsFrom max 0 fs = true) (ss ts : List Bytes)
+    (hs : ss.flatten = stream fs) (ht : ts.flatten = stream fs) :
+    (run max cb {} (ss.map AppOp.data)).2 = (run max cb {} (ts.map AppOp.data)).2 := by
+  have hl := liveUntilLast_of_fits max cb fs {} rfl hcl hfit
+  rw [W3_server_events_general max cb fs hv hl ss hs, W3_server_events_general max cb fs hv hl ts ht]
 
-/-- non-vacuity: a text frame followed by a close frame is a valid, close-last stream -/
-example : ValidFrames 100 [mkFrame 1 true [104, 105], makeClose 1000 []] ∧ CloseOnlyLast [mkFrame 1 true [104, 105], makeClose 1000 []] := by
-  refine ⟨?_, ?_⟩
+theorem W3_server_events_of_frames (max : Nat) (cb : Cbs) (fs : List Frame) (hv : ValidFrames max fs)
+    (hcl : CloseOnlyLast fs) (hfit : fitsFrom max 0 fs = true) (ss : List Bytes) (hs : ss.flatten = stream fs) :
+    (run max cb {} (ss.map AppOp.data)).2 = (interp max cb {} (fs.map toP)).2 :=
+  W3_server_events_general max cb fs hv (liveUntilLast_of_fits max cb fs {} rfl hcl hfit) ss hs
+
+/-- non-vacuity: a text frame followed by a close frame is a valid, close-last stream whose messages fit -/
+example : ValidFrames 100 [mkFrame 1 true [104, 105], makeClose 1000 []] ∧ CloseOnlyLast [mkFrame 1 true [104, 105], makeClose 1000 []] ∧
+    fitsFrom 100 0 [mkFrame 1 true [104, 105], makeClose 1000 []] = true := by
+  refine ⟨?_, ?_, by decide⟩
   · intro f hf
     simp only [List.mem_cons, List.mem_nil_iff, or_false] at hf
     rcases hf with rfl | rfl
     · exact ⟨⟨by simp [mkFrame], by simp [mkFrame, zeroKey], by simp [mkFrame], by simp [mkFrame], by simp [mkFrame, isControl, Gen.Ws.controlOpcodes]⟩, by simp [mkFrame]⟩
-    · exact ⟨⟨by simp [makeClose], by simp [makeClose, zeroKey], by simp [makeClose], by simp [makeClose], by simp [makeClose, Gen.Ws.maxControlPayload]⟩, by simp [makeClose]⟩
+    · exact ⟨⟨by decide, by decide, by intro; rfl, by decide, by intro; decide⟩, by decide⟩
   · intro pre f post he h8
     match pre, he with
     | [], he => simp at he; rw [← he.1] at h8; simp [mkFrame] at h8
@@ -91,52 +167,188 @@ example : ValidFrames 100 [mkFrame 1 true [104, 105], makeClose 1000 []] ∧ Clo
     | _ :: _ :: _ :: _, he => simp at he
     | [_, _], he => simp at he
 
-/-- **W4 (reassembly).** Fragments are joined in order; ping/pong control frames between fragments do not disturb
-reassembly; every ping is answered by a pong with the same payload; a text message is delivered only if it is valid
-UTF-8 (otherwise close 1007); the message is delivered exactly once. -/
-theorem W4_reassembly (max : Nat) (op : Nat) (hop : op = 1 ∨ op = 2) (fs : List Frame) (acc : Bytes)
-    (ht : Tail acc fs) (s : Sess) (ha : s.alive = true) (hfo : s.fragOp = op) (hl : (s.fragBuf ++ acc).length ≤ max) :
-    (interp max s (fs.map toP)).2 = pongsOf fs ++ deliverEv op (s.fragBuf ++ acc) :=
-  reassembly_tail max op hop fs acc ht s ha hfo hl
+/-- **W3 (delivered messages, no side condition).** For EVERY stream of valid frames — CLOSE anywhere, messages of any
+size — and any two segmentations, the server hands the SAME messages to the application, in the same order: frames that
+follow the end of the session (the peer's CLOSE, or a message over the limit) deliver nothing, whether they arrive in the
+same read or later. (Full events, by contrast, need `CloseOnlyLast`: a ping in the same read as a preceding CLOSE is
+still answered, in a later read it is not.) -/
+theorem W3_server_messages_segmentation_independent (max : Nat) (cb : Cbs) (fs : List Frame) (hv : ValidFrames max fs)
+    (ss ts : List Bytes) (hs : ss.flatten = stream fs) (ht : ts.flatten = stream fs) :
+    msgs (run max cb {} (ss.map AppOp.data)).2 = msgs (run max cb {} (ts.map AppOp.data)).2 := by
+  rw [run_msgs_eq max cb ss {} fs hv rfl (by simpa using hs) (by simp [parse]),
+      run_msgs_eq max cb ts {} fs hv rfl (by simpa using ht) (by simp [parse])]
+
+/-! ## W4 — reassembly, message-level exactness -/
+
+/-- **W4 (reassembly, inside a message).** Fragments are joined in order; ping/pong control frames between fragments do
+not disturb reassembly; every ping is answered by a pong with the same payload; a text message is delivered only if it is
+valid UTF-8 (otherwise close 1007); the message is delivered exactly once (`deliver`: the callback, then whatever the
+application sends from inside it), and the fragment buffer is empty afterwards. -/
+theorem W4_reassembly (max : Nat) (cb : Cbs) (fs : List Frame) (acc : Bytes)
+    (ht : Tail acc fs) (s : Sess) (ha : s.alive = true) (hl : (s.fragBuf ++ acc).length ≤ max) :
+    interp max cb s (fs.map toP) =
+      ((deliver cb (cleared s) s.fragOp (s.fragBuf ++ acc)).1,
+       pongsOf fs ++ (deliver cb (cleared s) s.fragOp (s.fragBuf ++ acc)).2) :=
+  reassembly_tail max cb fs acc ht s ha hl
+
+/-- non-vacuity: a ping, a non-final and a final continuation form a `Tail` -/
+example : Tail ([1, 2] ++ [3]) [mkFrame 9 true [7], mkFrame 0 false [1, 2], mkFrame 0 true [3]] :=
+  .ctl _ _ _ (.inl rfl) (.cont (mkFrame 0 false [1, 2]) [3] _ rfl rfl (.last (mkFrame 0 true [3]) rfl rfl))
+
+/-- **W4 (message-level exactness).** From a fresh session, the frames of a list of messages — each unfragmented or
+fragmented, pings/pongs anywhere (also between messages), an optional final CLOSE — with every message within the
+limit, deliver exactly those messages, in order, each once; text only if valid UTF-8. Combined with W3: for EVERY
+segmentation of the byte stream. -/
+theorem W4_messages_exact (max : Nat) (cb : Cbs) (ms : List (Nat × Bytes)) (fs : List Frame) (hm : Msgs ms fs)
+    (hv : ValidFrames max fs) (hfit : ∀ m ∈ ms, m.2.length ≤ max) (ss : List Bytes) (hs : ss.flatten = stream fs) :
+    msgs (run max cb {} (ss.map AppOp.data)).2 = ms.filterMap deliveryOf := by
+  rw [run_msgs_eq max cb ss {} fs hv rfl (by simpa using hs) (by simp [parse])]
+  exact msgs_exact max cb ms fs hm hfit {} rfl rfl
+
+/-- non-vacuity: an unfragmented text message, a ping between messages, a fragmented binary message, a close -/
+example : Msgs [(1, [104, 105]), (2, [1] ++ [2])]
+    ([mkFrame 1 true [104, 105]] ++ (mkFrame 9 true [] :: ([mkFrame 2 false [1], mkFrame 0 true [2]] ++ [makeClose 1000 []]))) :=
+  .msg 1 _ _ _ _ (.single (mkFrame 1 true [104, 105]) (.inl rfl) rfl)
+    (.ctl _ _ _ (.inl rfl)
+      (.msg 2 _ _ _ _ (.frag (mkFrame 2 false [1]) [2] _ (.inr rfl) rfl (.last (mkFrame 0 true [2]) rfl rfl))
+        (.close _ rfl)))
 
 /-- **W4 (UTF-8).** The validator accepts exactly the well-formed UTF-8 byte sequences of Unicode Table 3-7 / RFC 3629
 (no overlongs, no surrogates, nothing above U+10FFFF, no truncated sequences). -/
 theorem W4_utf8 (d : Bytes) : isValidUtf8 d = true ↔ Utf8 d := isValidUtf8_iff d
 
-/-- **W5 (after close).** For EVERY history of application sends (text, binary, ping, close) and network reads, in any
-order — each is one `_wsMutex` critical section in the real server — no data frame is handed to the transport after a
-close frame has been. -/
-theorem W5_no_data_after_close (max : Nat) (ops : List AppOp) : NoDataAfterClose (run max {} ops).2 :=
-  (run_noDataAfterClose max ops {}).2
+/-! ## W5 — nothing after close -/
 
-/-- **W6c (bounded buffering, session level).** For EVERY history and ARBITRARY peer bytes the session never retains
-more than `max + 13` unparsed bytes. -/
-theorem W6_server_buffer_bounded (max : Nat) (ops : List AppOp) : (run max {} ops).1.buffer.length < 14 + max :=
-  run_buffer max ops {} (by simp; omega)
+/-- **W5 (after close).** For EVERY history of application sends (text, binary, ping, close), network reads, and sends
+the application makes from inside its callbacks — each application send is one `_wsMutex` critical section in the real
+server (`W5_lock_discipline`) — no data frame is handed to the transport after a close frame has been. -/
+theorem W5_no_data_after_close (max : Nat) (cb : Cbs) (ops : List AppOp) : NoDataAfterClose (run max cb {} ops).2 :=
+  run_noDataAfterClose max cb ops {}
+
+/-- **W5 (lock discipline of the source text).** The skeleton the translator extracts from the working tree satisfies the
+discipline the models assume (see `Model/WsSkel.lean`): on both endpoints the close-flag test of
+`sendText/sendBinary/sendPing` and the hand-over of the frame are ONE critical section of the session mutex; every
+CLOSE-frame send (`sendClose`, the inbound-CLOSE echo) is preceded by setting the flag under that mutex; every write of the
+flag is under it; callbacks and `sendClose` calls are made with no mutex held. -/
+theorem W5_lock_discipline :
+    Skel.disciplined Skel.serverFunctions "_wsMutex" "closeSent" Gen.Ws.serverSkeleton = true ∧
+    Skel.sendersPresent Gen.Ws.serverSkeleton = true ∧
+    Skel.disciplined Skel.clientFunctions "_sendMutex" "_closeSent" Gen.Ws.clientSkeleton = true ∧
+    Skel.sendersPresent Gen.Ws.clientSkeleton = true := by decide
+
+/-- the programs application threads run: the send paths of the regenerated skeleton, compiled to lock / flag / send actions -/
+def serverPrograms : List (List Conc.Act) := Gen.Ws.serverSkeleton.map (fun f => Conc.compile "_wsMutex" "closeSent" f.2)
+def clientPrograms : List (List Conc.Act) := Gen.Ws.clientSkeleton.map (fun f => Conc.compile "_sendMutex" "_closeSent" f.2)
+
+/-- every function of the working tree's skeleton is a disciplined program of the small-step model -/
+theorem W5_programs_disciplined :
+    serverPrograms.all Conc.ok = true ∧ clientPrograms.all Conc.ok = true := by decide
+
+/-- **W5 (concurrent).** ANY number of application threads, each making ANY sequence of calls of the send paths as they
+are in the working tree (`serverPrograms` / `clientPrograms`: `sendText`, `sendBinary`, `sendPing`, `sendClose`, and the
+receive handlers with their CLOSE echo), under ANY schedule, any initial value of the close flag and any resolution of the
+early returns the skeleton leaves open: no data frame is handed to the transport after a close frame. (Small-step model
+`Model/WsConc.lean`: mutex with RAII release, one shared flag, one wire; the abstraction from C++ to skeleton is the
+translator's, see the level note.) -/
+theorem W5_concurrent (progs : List (List Conc.Act)) (hp : progs = serverPrograms ∨ progs = clientPrograms) (flag : Bool)
+    (calls : List (List (List Conc.Act))) (h : ∀ cs ∈ calls, ∀ p ∈ cs, p ∈ progs) (sched : List (Nat × Bool)) :
+    Conc.NoDataAfterCloseW (Conc.run (Conc.start flag calls) sched).wire := by
+  apply Conc.noDataAfterClose flag calls _ sched
+  intro cs hcs p hpm
+  have hmem := h cs hcs p hpm
+  rcases hp with rfl | rfl
+  · exact List.all_eq_true.mp W5_programs_disciplined.1 p hmem
+  · exact List.all_eq_true.mp W5_programs_disciplined.2 p hmem
+
+/-- non-vacuity: two threads, `sendText` against `sendClose`; the schedule that lets the sender pass its check first -/
+example : [[Conc.compile "_wsMutex" "closeSent" (Gen.Ws.serverSkeleton[0]!).2], [Conc.compile "_wsMutex" "closeSent" (Gen.Ws.serverSkeleton[3]!).2]].all
+      (fun cs => cs.all (fun p => serverPrograms.contains p)) = true ∧
+    (Conc.run (Conc.start false [[Conc.compile "_wsMutex" "closeSent" (Gen.Ws.serverSkeleton[0]!).2],
+        [Conc.compile "_wsMutex" "closeSent" (Gen.Ws.serverSkeleton[3]!).2]])
+      [(0, false), (1, false), (0, false), (0, false), (0, false), (0, false), (0, false), (0, false),
+       (1, false), (1, false), (1, false), (1, false), (1, false)]).wire = [false, true] := by decide
+
+/-! ## W6 — bounded buffering -/
+
+/-- **W6c (bounded buffering, session level).** For EVERY history, ARBITRARY peer bytes and any callback behaviour the
+session never retains more than `max + 13` unparsed bytes. -/
+theorem W6_server_buffer_bounded (max : Nat) (cb : Cbs) (ops : List AppOp) : (run max cb {} ops).1.buffer.length < 14 + max :=
+  (run_bounded max cb ops {} ⟨by simp; omega, by simp⟩).1
+
+/-- **W6d (bounded reassembly).** For EVERY history and ARBITRARY peer bytes the fragment buffer never holds more than
+`max` bytes (repair FC18a: a message over the limit clears it and ends the session). -/
+theorem W6_server_fragment_bounded (max : Nat) (cb : Cbs) (ops : List AppOp) : (run max cb {} ops).1.fragBuf.length ≤ max :=
+  (run_bounded max cb ops {} ⟨by simp; omega, by simp⟩).2
+
+/-- the same bounds for a session created by an upgrade request that arrived together with `trailing` bytes -/
+theorem W6_server_upgrade_boundary (max : Nat) (cb : Cbs) (trailing : Bytes) (ops : List AppOp) :
+    (upgrade max cb trailing).2 = [.connected, .upgraded] ++ (run max cb {} (if trailing.isEmpty then [] else [.data trailing])).2 ∧
+    Bounded max (run max cb (upgrade max cb trailing).1 ops).1 := by
+  refine ⟨?_, run_bounded max cb ops _ (upgrade_bounded max cb trailing)⟩
+  unfold upgrade
+  by_cases ht : trailing.isEmpty = true
+  · simp [ht, run]
+  · simp [ht, run, step]
 
 /-! ## Client (`websocket_client.hpp`) -/
 
-/-- **W3 (client events).** For ANY stream of valid frames (CLOSE anywhere) and any two segmentations, a connected client
-produces the same events; they are the per-frame handler folded over the frames. -/
-theorem W3_client_segmentation_independent (fs : List Frame) (hv : ValidFrames clientMaxPayload fs)
+/-- **W3 (client events).** For ANY stream of valid frames (CLOSE anywhere, messages of any size), any callback behaviour
+and any two segmentations, a connected client produces the same events; they are the per-frame handler folded over the
+frames (frames that reach a connection the client has failed are ignored, in the same read or later). -/
+theorem W3_client_segmentation_independent (cfg : CCfg) (fs : List Frame) (hv : ValidFrames cfg.max fs)
     (ss ts : List Bytes) (hs : ss.flatten = stream fs) (ht : ts.flatten = stream fs) :
-    (cRun {} (ss.map COp.data)).2 = (cRun {} (ts.map COp.data)).2 := by
-  rw [cRun_data_eq ss {} fs hv rfl (by simpa using hs) (by simp [parse]),
-      cRun_data_eq ts {} fs hv rfl (by simpa using ht) (by simp [parse])]
+    (cRun cfg {} (ss.map COp.data)).2 = (cRun cfg {} (ts.map COp.data)).2 := by
+  rw [cRun_data_eq cfg ss {} fs hv rfl rfl (by simp) (by simpa using hs) (by simp [parse]),
+      cRun_data_eq cfg ts {} fs hv rfl rfl (by simp) (by simpa using ht) (by simp [parse])]
 
-/-- **W4 (client reassembly).** Same statement as the server's (no message-size limit on the client): one pong per
-ping in order, then ONE delivery of the in-order concatenation, text only if valid UTF-8 (else close 1007). -/
-theorem W4_client_reassembly (op : Nat) (hop : op = 1 ∨ op = 2) (fs : List Frame) (acc : Bytes) (ht : Tail acc fs)
-    (s : CSess) (hfo : s.fragOp = op) :
-    (cInterp s (fs.map toP)).2 = cPongsOf fs ++ cDeliverEv op (s.fragBuf ++ acc) :=
-  cReassembly_tail op hop fs acc ht s hfo
+/-- **W3 (client, across the upgrade boundary).** A client waiting for the upgrade response that receives a response it
+accepts (`ValidResp`: ends with its first CRLF CRLF, at most `kMaxUpgradeResponse` bytes, `HTTP/1.1 101` status line, the
+expected `Sec-WebSocket-Accept` value on a header line) followed by ANY stream of valid frames, the whole byte stream cut
+ANYWHERE into reads — inside the response, exactly at its end, inside a frame — reports the connection once and then
+produces exactly the events of the per-frame handler folded over the frames. -/
+theorem W3_client_upgrade_boundary (cfg : CCfg) (resp : Bytes) (hr : ValidResp cfg resp) (fs : List Frame)
+    (hv : ValidFrames cfg.max fs) (ss : List Bytes) (hs : ss.flatten = resp ++ stream fs) :
+    (cRun cfg (waiting []) (ss.map COp.data)).2 = CEv.connected :: (cInterp cfg {} (fs.map toP)).2 :=
+  cRun_upgrade_eq cfg resp hr fs hv ss [] (by have := hr.len4; simp; omega) (by simpa using hs)
 
-/-- **W5 (client).** For every history of application sends and reads, no data frame follows a close frame. -/
-theorem W5_client_no_data_after_close (ops : List COp) : NoDataAfterCloseC (cRun {} ops).2 :=
-  (cRun_noDataAfterClose ops {}).2
+/-- non-vacuity: `HTTP/1.1 101 OK\r\nSec-WebSocket-Accept: \tabc \r\nUpgrade: websocket\r\n\r\n` is accepted by a client expecting `abc` -/
+example : ValidResp { accept := [97, 98, 99] } [72, 84, 84, 80, 47, 49, 46, 49, 32, 49, 48, 49, 32, 79, 75, 13, 10, 83, 101, 99, 45, 87, 101, 98, 83, 111, 99, 107, 101, 116, 45, 65, 99, 99, 101, 112, 116, 58, 32, 9, 97, 98, 99, 32, 13, 10, 85, 112, 103, 114, 97, 100, 101, 58, 32, 119, 101, 98, 115, 111, 99, 107, 101, 116, 13, 10, 13, 10] :=
+  ⟨by decide, by decide, by decide, by decide, ⟨17, 6, by decide, by decide, by decide, by decide⟩⟩
 
-/-- **W6c (client).** For every history and arbitrary peer bytes the client retains < 14 + kMaxFramePayload unparsed bytes. -/
-theorem W6_client_buffer_bounded (ops : List COp) : (cRun {} ops).1.buffer.length < 14 + clientMaxPayload :=
-  cRun_buffer ops {} (by simp; omega)
+/-- **W4 (client reassembly).** Same statement as the server's: one pong per ping in order, then ONE delivery of the
+in-order concatenation, text only if valid UTF-8 (else close 1007), provided the message fits the client's limit. -/
+theorem W4_client_reassembly (cfg : CCfg) (fs : List Frame) (acc : Bytes) (ht : Tail acc fs)
+    (s : CSess) (hpf : s.protocolFailed = false) (hl : (s.fragBuf ++ acc).length ≤ cfg.max) :
+    cInterp cfg s (fs.map toP) =
+      ((cDeliver cfg.cb (cCleared s) s.fragOp (s.fragBuf ++ acc)).1,
+       cPongsOf fs ++ (cDeliver cfg.cb (cCleared s) s.fragOp (s.fragBuf ++ acc)).2) :=
+  cReassembly_tail cfg fs acc ht s hpf hl
+
+example : Tail [3] [mkFrame 10 true [], mkFrame 0 true [3]] ∧ ({} : CSess).protocolFailed = false :=
+  ⟨.ctl _ _ _ (.inr rfl) (.last (mkFrame 0 true [3]) rfl rfl), rfl⟩
+
+/-- **W4 (client, message-level exactness)** for every segmentation. -/
+theorem W4_client_messages_exact (cfg : CCfg) (ms : List (Nat × Bytes)) (fs : List Frame) (hm : Msgs ms fs)
+    (hv : ValidFrames cfg.max fs) (hfit : ∀ m ∈ ms, m.2.length ≤ cfg.max) (ss : List Bytes) (hs : ss.flatten = stream fs) :
+    cMsgs (cRun cfg {} (ss.map COp.data)).2 = ms.filterMap cDeliveryOf := by
+  rw [cRun_data_eq cfg ss {} fs hv rfl rfl (by simp) (by simpa using hs) (by simp [parse])]
+  exact cMsgs_exact cfg ms fs hm hfit {} rfl rfl
+
+/-- **W5 (client).** For every history of application sends, reads (incl. the upgrade response) and sends made from
+inside callbacks, from any state, no data frame follows a close frame. -/
+theorem W5_client_no_data_after_close (cfg : CCfg) (ops : List COp) (s : CSess) : NoDataAfterCloseC (cRun cfg s ops).2 :=
+  cRun_noDataAfterClose cfg ops s
+
+/-- **W6c/d (client).** For every history and arbitrary peer bytes — starting connected or still waiting for the upgrade
+response — a connected client retains fewer than `14 + max` unparsed bytes, a client waiting for the upgrade response at
+most `kMaxUpgradeResponse` (repair FC18d), and the fragment buffer never exceeds `max` (repair FC18b). -/
+theorem W6_client_buffer_bounded (cfg : CCfg) (ops : List COp) :
+    (cRun cfg {} ops).1.buffer.length < 14 + cfg.max ∧ (cRun cfg {} ops).1.fragBuf.length ≤ cfg.max := by
+  have h0 : CBounded cfg {} := ⟨fun _ => (by simp; omega), fun h => (by cases h), (by simp)⟩
+  obtain ⟨h1, _, h3⟩ := cRun_bounded cfg ops {} h0
+  exact ⟨h1 (cRun_upgraded cfg ops {} h0 rfl), h3⟩
+
+theorem W6_client_upgrade_bounded (cfg : CCfg) (ops : List COp) : CBounded cfg (cRun cfg preUpgrade ops).1 :=
+  cRun_bounded cfg ops preUpgrade ⟨fun h => (by cases h), fun _ => (by simp [preUpgrade]), (by simp [preUpgrade])⟩
 
 end Iora.C18
